@@ -1677,6 +1677,13 @@ impl HnswBackend {
             );
         }
 
+        // Reject everything the index would reject *before* the WAL append: a vector refused
+        // after logging is compensated by a Delete entry, which erases the previous version
+        // of an overwritten document on replay.
+        if embedding.iter().any(|v| !v.is_finite()) {
+            anyhow::bail!("embedding contains non-finite values");
+        }
+
         let mut embedding = embedding;
         let distance = self.index.read().distance_metric();
         normalize_in_place_if_needed(distance, &mut embedding)?;
@@ -3112,6 +3119,12 @@ fn normalize_in_place_if_needed(distance: DistanceMetric, embedding: &mut [f32])
     }
 
     let norm_sq = crate::simd::sum_squares_f32(embedding);
+    if !norm_sq.is_finite() {
+        anyhow::bail!(
+            "embedding norm overflows f32; cannot normalize for {:?}",
+            distance
+        );
+    }
     if norm_sq <= f32::EPSILON {
         anyhow::bail!(
             "embedding norm is zero; cannot normalize for {:?}",
